@@ -29,7 +29,7 @@ enum {
 	N_CB, N_CB_IMM, N_CB_NET, N_CB_TMR, N_POLL, N_BLOCK, N_EINTR, N_SIGNAL, N_SPUR, N_HUP,
 	N_POLLERR, N_WORK, N_ENV, N_ACT_IN_CB, N_CANCEL_IN_CB, N_SELF_FD, N_EEXIST, N_ENOENT,
 	N_POLLGROW, N_ALLOCFAIL, N_RUNS, N_SPIN, N_RET_NONZERO, N_INTR_CB, N_INTR_OUT, N_RESET,
-	N_TIE, N_RW_SAME_FD, N_DRAIN_FIRED, N_SIGCLK, N_REG_FAIL, N_RUN_FAIL, N_MAXPEND
+	N_TIE, N_RW_SAME_FD, N_DRAIN_FIRED, N_SIGCLK, N_REG_FAIL, N_RUN_FAIL, N_MAXPEND, N_CLOCKFAIL, N_NOMONO
 };
 const char * const engine_counters[] = {
 	"callbacks", "cb_immediate", "cb_socket", "cb_timer", "polls", "poll_blocked", "fault_eintr",
@@ -39,7 +39,8 @@ const char * const engine_counters[] = {
 	"fault_alloc_failed", "events_run_calls", "events_spin_calls", "probe_nonzero_return",
 	"probe_interrupt_in_callback", "probe_interrupt_outside", "probe_timer_reset", "probe_timer_tie",
 	"probe_read_and_write_same_fd", "probe_drain_fired", "fault_signal_at_clock_read",
-	"probe_register_failed", "probe_run_failed", "probe_max_pending", NULL
+	"probe_register_failed", "probe_run_failed", "probe_max_pending", "fault_clock_read_failed",
+	"runs_without_monotonic_clock", NULL
 };
 
 /* ---------- ops ---------- */
@@ -181,11 +182,32 @@ note_interrupt(void)
 		intr_pending_outside = 1;
 }
 
+/* clock faults: the reads (counted over the whole run) that fail hard; a process without a monotonic clock */
+static const struct pline * clk_fail;
+static int clk_reads, clock_failures, no_monotonic;
+#define CF_SINCE(before) (clock_failures != (before))
+
 int
 __wrap_clock_gettime(clockid_t c, struct timespec * ts)
 {
+	int i;
 
-	(void)c;
+	if (c == CLOCK_MONOTONIC && no_monotonic) {
+		errno = EINVAL;		/* the documented fallback: the library must go on with CLOCK_REALTIME */
+		return (-1);
+	}
+	if (clk_fail != NULL && !draining) {
+		for (i = 0; i < clk_fail->ntok; i++)
+			if (clk_fail->tok[i].n > 0 && clk_fail->tok[i].v[0] == (int64_t)clk_reads) {
+				clk_reads++;
+				clock_failures++;
+				R->cnt[N_CLOCKFAIL]++;
+				TR(0xA2, clk_reads - 1, 0, "clock_gettime -> -1 EIO (injected)");
+				errno = EIO;
+				return (-1);
+			}
+	}
+	clk_reads++;
 	now_ns += tick_ns;
 	if (sig_at_clock > 0 && ++clock_reads_in_step == sig_at_clock && in_run) {
 		R->cnt[N_SIGCLK]++;
@@ -403,6 +425,8 @@ op_reg_tmr(int64_t us, int dbl, int al)
 	r->timeo_us = (uint64_t)us;
 	r->dbl = dbl ? 1 : 0;
 	for (attempt = 0; attempt < 2; attempt++) {
+		int c0 = clock_failures;
+
 		f0 = simalloc_failed;
 		t0 = now_us();
 		LIB_ENTER();
@@ -423,6 +447,12 @@ op_reg_tmr(int64_t us, int dbl, int al)
 		t1 = now_us();
 		if (r->cookie != NULL)
 			break;
+		if (CF_SINCE(c0) && !AF_SINCE(f0)) {
+			/* the clock could not be read: the registration is refused and must leave nothing behind */
+			R->cnt[N_REG_FAIL]++;
+			TR(0x4E, r->timeo_us, 0, "reg_tmr us=%lu -> NULL (clock read failed)", (unsigned long)r->timeo_us);
+			return;
+		}
 		if (!AF_SINCE(f0))
 			sim_viol("C04.retval", "tmr-register-null", "events_timer_register failed without an allocation failure");
 		R->cnt[N_REG_FAIL]++;
@@ -498,17 +528,23 @@ op_reset_tmr(int64_t a)
 {
 	struct reg * r = pick_live(K_TMR, a);
 	uint64_t t0, t1;
-	int rc;
+	int rc, c0;
 
 	if (r == NULL)
 		return;
 	if (budget-- <= 0)
 		return;		/* resets count against the budget too: a reset cascade must end */
 	t0 = now_us();
+	c0 = clock_failures;
 	LIB_ENTER();
 	rc = events_timer_reset(r->cookie);
 	LIB_LEAVE();
 	t1 = now_us();
+	if (rc != 0 && CF_SINCE(c0)) {
+		/* the clock could not be read: the timer keeps the deadline it had */
+		TR(0x71, r->id, 0, "reset_tmr id=%d -> -1 (clock read failed), deadline unchanged", r->id);
+		return;
+	}
 	if (rc != 0)
 		sim_viol("C04.retval", "reset", "events_timer_reset failed");
 	r->dl_lo = t0 + r->timeo_us - ((r->dbl && r->timeo_us > 0) ? 1 : 0);
@@ -983,7 +1019,7 @@ poll_impl(struct pollfd * fds, nfds_t n, int T)
 static void
 run_once(int spin, const struct pline * tape, int sigclk)
 {
-	int R0, R0imm, intr_before, rc, i, f0;
+	int R0, R0imm, intr_before, rc, i, f0, c0;
 
 	apply_env();
 	R0 = pending_imm();
@@ -1014,6 +1050,7 @@ run_once(int spin, const struct pline * tape, int sigclk)
 	clock_reads_in_step = 0;
 	sig_at_clock = sigclk;
 	f0 = simalloc_failed;
+	c0 = clock_failures;
 	spin_active = spin;
 	spin_done = 0;
 	if (spin) {
@@ -1034,6 +1071,8 @@ run_once(int spin, const struct pline * tape, int sigclk)
 	sig_at_clock = 0;
 	cur_tape = NULL;
 	allocfail_in_call = AF_SINCE(f0);
+	if (CF_SINCE(c0))
+		hard_err_in_call = 1;	/* the loop cannot go on without the time: -1 is the documented answer */
 	TR(0xE0, rc, cb_in_call, "-> returned %d after %d callbacks", rc, cb_in_call);
 	if (have_nonzero) {
 		if (rc != nonzero_rc)
@@ -1230,6 +1269,15 @@ engine_gen(struct plan * P, uint64_t seed, struct prng * g)
 	for (i = 0; i < nfd; i++)
 		pline_tok(l, 1, (int64_t)fdv[i]);
 	plan_add(P, "knob", "tick_ns", 1, prng_chance(g, 30) ? (int64_t)prng_n(g, 3000) : (int64_t)0);
+	plan_add(P, "knob", "no_monotonic", 1, (int64_t)prng_chance(g, 8));
+	if (prng_chance(g, 12)) {
+		/* a few clock reads of the run fail hard (counted from the start of the run) */
+		struct pline * cl = plan_add(P, "clk", "0", 0);
+		int nf = 1 + (int)prng_n(g, 3), q;
+
+		for (q = 0; q < nf; q++)
+			pline_tok(cl, 1, (int64_t)prng_n(g, prng_chance(g, 50) ? 40 : 400));
+	}
 	plan_add(P, "knob", "budget", 1, (int64_t)(80 + nfd + prng_n(g, 150)));
 	plan_add(P, "knob", "realloc_moves", 1, (int64_t)prng_n(g, 2));
 	plan_add(P, "knob", "fill", 1, (int64_t)(prng_chance(g, 50) ? 256 : (prng_chance(g, 50) ? 0xff : 0)));
@@ -1347,6 +1395,10 @@ engine_run(const struct plan * P)
 	for (fi = 0; fi < MAXFD; fi++)
 		netreg[fi][0] = netreg[fi][1] = -1;
 	tick_ns = (uint64_t)plan_knob(P, "tick_ns", 0);
+	clk_fail = plan_find(P, "clk", "0");
+	no_monotonic = (int)plan_knob(P, "no_monotonic", 0) == 1;
+	if (no_monotonic)
+		R->cnt[N_NOMONO]++;
 	if (tick_ns > 1000000)
 		tick_ns = 1000000;
 	budget = (int)plan_knob(P, "budget", 100);
